@@ -16,7 +16,16 @@ type vField struct {
 	hasTag    bool
 	tag       string // text between the backquotes
 	comment   string // full comment text incl. "//", "" = none
+	comment2  string // a second comment in the same trailing group (the first must then be a /* */ comment)
+	doc       string // a comment on the line above the field (its doc comment), "" = none
 }
+
+// layout of the rendered source: gofmt's by default; other layouts are still valid Go
+var (
+	vIndent      = "\t"
+	vGap         = " "
+	vNoFinalLine bool
+)
 
 type vStructSrc struct {
 	name   string
@@ -36,24 +45,38 @@ func vBuildSource(pre string, structs []vStructSrc, post string) (string, *ast.F
 		src += "struct {\n"
 		fl := &ast.FieldList{Opening: structPos + 7}
 		for _, fd := range st.fields {
-			src += "\t"
+			var docGroup *ast.CommentGroup
+			if fd.doc != "" {
+				src += vIndent
+				dp := token.Pos(len(src) + 1)
+				src += fd.doc + "\n"
+				docGroup = &ast.CommentGroup{List: []*ast.Comment{{Slash: dp, Text: fd.doc}}}
+				f.Comments = append(f.Comments, docGroup)
+			}
+			src += vIndent
 			np := token.Pos(len(src) + 1)
-			src += fd.name + " "
+			src += fd.name + vGap
 			tp := token.Pos(len(src) + 1)
 			src += fd.typ
-			af := &ast.Field{Names: []*ast.Ident{{NamePos: np, Name: fd.name}}, Type: &ast.Ident{NamePos: tp, Name: fd.typ}}
+			af := &ast.Field{Doc: docGroup, Names: []*ast.Ident{{NamePos: np, Name: fd.name}}, Type: &ast.Ident{NamePos: tp, Name: fd.typ}}
 			if fd.hasTag {
-				src += " "
+				src += vGap
 				vp := token.Pos(len(src) + 1)
 				lit := "`" + fd.tag + "`"
 				src += lit
 				af.Tag = &ast.BasicLit{ValuePos: vp, Kind: token.STRING, Value: lit}
 			}
 			if fd.comment != "" {
-				src += " "
+				src += vGap
 				cp := token.Pos(len(src) + 1)
 				src += fd.comment
 				cg := &ast.CommentGroup{List: []*ast.Comment{{Slash: cp, Text: fd.comment}}}
+				if fd.comment2 != "" {
+					src += " "
+					cp2 := token.Pos(len(src) + 1)
+					src += fd.comment2
+					cg.List = append(cg.List, &ast.Comment{Slash: cp2, Text: fd.comment2})
+				}
 				af.Comment = cg
 				f.Comments = append(f.Comments, cg)
 			}
@@ -67,6 +90,9 @@ func vBuildSource(pre string, structs []vStructSrc, post string) (string, *ast.F
 		}})
 	}
 	src += post
+	if vNoFinalLine && len(src) > 0 && src[len(src)-1] == '\n' {
+		src = src[:len(src)-1]
+	}
 	return src, f
 }
 
